@@ -231,3 +231,9 @@ def plumbing(rep, repo, mod):
     rep.ob('C15.bitorder', 'LogicSim.s has 3 planes per signal (matches mv_to_bp)', ok)
     if not ok:
         rep.violate('C15.bitorder', ls, li, 'self.s', 'LogicSim.s must be (2, s_len, 3, nbytes) uint8: three planes per signal as produced by mv_to_bp', node=li)
+
+
+def thorough(rep, repo):
+    """Thorough tier: the quick rules plus checker self-validation on the C15 slice of the mutation corpus."""
+    from kvstatic import thorough as thorough_mod
+    thorough_mod.selftest_slice(rep, repo, 'C15')
